@@ -164,7 +164,10 @@ const prelude = `(define-sort F64 () (_ FloatingPoint 11 53))
 (define-fun str_width ((s Str) (i Int)) Int (u8width (- (slen s) i) (sbyte s i) (sbyte s (+ i 1)) (sbyte s (+ i 2)) (sbyte s (+ i 3))))
 (define-fun str_rune ((s Str) (i Int)) Int (u8rune (- (slen s) i) (sbyte s i) (sbyte s (+ i 1)) (sbyte s (+ i 2)) (sbyte s (+ i 3))))
 (define-fun substr ((s Str) (lo Int) (hi Int)) Str (mkstr (sarr s) (+ (soff s) lo) (- hi lo)))
-(declare-fun streq (Str Str) Bool)
+(declare-fun strkey (Str) Int)
+(declare-fun keystr (Int) Str)
+(declare-fun keylen (Int) Int)
+(define-fun streq ((a Str) (b Str)) Bool (= (strkey a) (strkey b)))
 (declare-fun strlt (Str Str) Bool)
 (declare-fun box_Str (Str) Int)
 (declare-fun unbox_Str (Int) Str)
@@ -178,8 +181,13 @@ const prelude = `(define-sort F64 () (_ FloatingPoint 11 53))
 (declare-fun unbox_Slice (Int) Slice)
 `
 
-const streqAxioms = `(assert (forall ((a Str)) (! (streq a a) :pattern ((streq a a)))))
-(assert (forall ((a Str) (b Str)) (! (=> (streq a b) (= (slen a) (slen b))) :pattern ((streq a b)))))
+// String equality: strkey(s) identifies the content of s; streq(a, b) is equality of the identifiers (prelude), hence an
+// equivalence; equal strings have equal lengths (keylen). keystr(id) is a string with identifier id (the key of a
+// quantifier over the members of a string-keyed map).
+const streqAxioms = `(assert (forall ((a Str)) (! (= (slen a) (keylen (strkey a))) :pattern ((strkey a)))))
+`
+
+const strkeyAxioms = `(assert (forall ((q Int)) (! (= (strkey (keystr q)) q) :pattern ((keystr q)))))
 `
 
 // sorter maps Go types to SMT sorts, declaring struct datatypes on demand.
@@ -352,13 +360,13 @@ func (s *sorter) zeroSort(srt string, t types.Type) string {
 	case sF64:
 		return "(_ +zero 11 53)"
 	case sStr:
-		return "(mkstr empty_arr 0 0)"
+		return "(mkstr ((as const (Array Int Int)) 0) 0 0)" // a value in the SMT-LIB sense: cvc5 accepts only values as const-array elements
 	case sSlice:
 		return "(mkslice 0 0 0 0)"
 	case sIface:
 		return "(mkiface 0 0)"
 	case sRV:
-		return "rv_zero"
+		return "0" // the zero reflect.Value (rv_zero); written as a literal so that it is a value inside constant arrays
 	}
 	if strings.HasPrefix(srt, "(Array Int ") {
 		el := srt[len("(Array Int ") : len(srt)-1]
